@@ -107,7 +107,9 @@ PROPS = {
                  dict(name="labelpatch", quick=300, thorough=10000, shard=400, trivial_tags=["no-write"]),
                  dict(name="convert", quick=300, thorough=10000, shard=300, trivial_tags=[]),
                  dict(name="validate", quick=1500, thorough=40000, shard=500, trivial_tags=[]),
-                 dict(name="rolloutbg", quick=1200, thorough=60000, shard=400, trivial_tags=["no-change", "status-not-written"])],
+                 dict(name="rolloutbg", quick=1200, thorough=60000, shard=400, trivial_tags=["no-change", "status-not-written"]),
+                 dict(name="ctlplane", quick=800, thorough=30000, shard=400, trivial_tags=[]),
+                 dict(name="bgfinal", quick=300, thorough=10000, shard=300, trivial_tags=["partitioned"])],
         rule="rolloutsm engine (see C02) with arbitrary nextStepIndex values; brexec, labelpatch, convert engines for the other crash surfaces; every reconcile/call runs under recover(). "
              "validate engine: generated v1beta1 Rollouts (workload kinds incl. unsupported, canary / blue-green / none / both, enableExtraWorkloadForCanary, 0-4 steps with number / "
              "percentage / malformed / absent replicas in pure and MIXED type plans incl. decreasing ones, traffic strings incl. 0%, 101%, non-percent, header matches, 0-2 traffic "
@@ -138,7 +140,8 @@ PROPS = {
     ),
     "C03": dict(
         engines=[dict(name="rollouttr", quick=1200, thorough=60000, shard=400, trivial_tags=["no-network-write"]),
-                 dict(name="trafficmgr", quick=800, thorough=40000, shard=400, trivial_tags=["no-write"])],
+                 dict(name="trafficmgr", quick=800, thorough=40000, shard=400, trivial_tags=["no-write"]),
+                 dict(name="gateway", quick=200, thorough=10000, shard=25, search=400, trivial_tags=["no-stable-rule"])],
         rule="rollouttr: the rolloutsm generator (any spec/status/workload/BatchRelease combination, focused modes at the gates) with traffic routing through an nginx Ingress: "
              "per-step strategies (weights, header match, none), stable Service pinned / unpinned / pinned elsewhere, canary Service absent / right / wrong selector, canary "
              "Ingress absent / weight 0 / this step's / previous step's / another strategy, zero or 3 s grace, in-memory grace expectations pending or elapsed per action; one "
@@ -171,7 +174,8 @@ PROPS = {
     "C06": dict(
         translator=True,
         engines=[dict(name="rollouttr", quick=1500, thorough=60000, shard=500, trivial_tags=["no-network-write"]),
-                 dict(name="trafficmgr", quick=800, thorough=40000, shard=400, trivial_tags=["no-write"])],
+                 dict(name="trafficmgr", quick=800, thorough=40000, shard=400, trivial_tags=["no-write"]),
+                 dict(name="ctlplane", quick=800, thorough=30000, shard=400, trivial_tags=[])],
         rule="as C04; crash points are represented as (any persisted state, any network state reachable as a prefix of a reconcile's writes, any in-memory grace state): the "
              "generators draw the grace expectations independently of the persisted state (none / pending / elapsed per action) and the trafficmgr sequences contain explicit "
              "process restarts and clock advances between real manager calls; non-trivial = a network write happened; distinct = distinct input JSON",
@@ -183,7 +187,10 @@ PROPS = {
     ),
     "C05": dict(
         engines=[dict(name="rollouttr", quick=1500, thorough=60000, shard=500, trivial_tags=["no-network-write"]),
-                 dict(name="rolloutsm", quick=1200, thorough=60000, shard=400, trivial_tags=["no-change", "status-not-written"])],
+                 dict(name="rolloutsm", quick=1200, thorough=60000, shard=400, trivial_tags=["no-change", "status-not-written"]),
+                 dict(name="custom", quick=400, thorough=20000, shard=200, trivial_tags=[]),
+                 dict(name="gateway", quick=200, thorough=10000, shard=25, search=400, trivial_tags=["no-stable-rule"]),
+                 dict(name="ctlplane", quick=800, thorough=30000, shard=400, trivial_tags=[])],
         rule="rollouttr / rolloutsm generators (see C03 / C02): every phase incl. Terminating and Disabling, every finalising task as persisted cursor, workload present / absent / "
              "with inconsistent status, BatchRelease present / resumed / completed / deleting / absent, network state arbitrary; one real Reconcile per case; non-trivial = the "
              "reconcile changed something; distinct = distinct input JSON",
@@ -266,7 +273,9 @@ PROPS = {
                     "the implementation",
     ),
     "C11": dict(
-        engines=[dict(name="brexec", quick=1200, thorough=60000, shard=400, trivial_tags=["status-unchanged"])],
+        engines=[dict(name="brexec", quick=1200, thorough=60000, shard=400, trivial_tags=["status-unchanged"]),
+                 dict(name="bgfinal", quick=600, thorough=20000, shard=300, trivial_tags=["partitioned"]),
+                 dict(name="ctlplane", quick=800, thorough=30000, shard=400, trivial_tags=[])],
         rule="seeded generator of (BatchRelease spec: plan, batchPartition incl. nil and beyond the plan, failureThreshold, deleting, finalizer; persisted status: every phase incl. "
              "empty/Initial/unknown, batch incl. out of range, every batch state incl. unknown, stale/current/empty plan hash, stale observed replicas/revisions; CloneSet: "
              "missing, unstable generation, promoted, scaled, rolled back, new template, progress below/at/above the batch, current partition absent/100%/target/arbitrary, "
@@ -353,8 +362,8 @@ MANIFEST_TEXT = {
              "cursor either stays or moves along the gated path (upgrade done only when the BatchRelease carries exactly this step's plan and partition, has observed it and reports "
              "Ready; pause left only through the elapsed duration or a 100%% last step; next step/completion only from StepReady), and a paused rollout writes nothing and keeps its "
              "cursor. The Gallina reconcile is compared with the real RolloutReconciler.Reconcile on generated states on every run; the gating boolean is evaluated on the real result.",
-        note="Single-reconcile theorems over arbitrary persisted states (so they hold across restarts between any two writes); the history-level statement with ghost variables is "
-             "not built. Canary and blue-green strategies over a CloneSet without traffic routing (the blue-green reconcile has its own model, theorems "
+        note="Single-reconcile theorems over arbitrary persisted states, lifted to every history of reconciles in which each reconcile finds an arbitrary workload / BatchRelease "
+             "observation and only the persisted status is carried over (C02_every_history_is_gated) -- so they hold across restarts between any two writes. Canary and blue-green strategies over a CloneSet without traffic routing (the blue-green reconcile has its own model, theorems "
              "C02_bluegreen_steps_are_gated / C02_bluegreen_manual_pause_waits and engine rolloutbg: no pause, the last one included, is left without its duration elapsing).",
         design_ref="DESIGN.md section 9, C02"),
     "C09": dict(
@@ -402,8 +411,9 @@ MANIFEST_TEXT = {
         text="Partial proof. The reconcile and manager models take the in-memory grace state as an arbitrary argument and every theorem of C03, C04 and C05 quantifies over it and "
              "over every persisted / network state, which is what a crash at any write leaves behind. Proved in addition: one finalising reconcile with a lost status write "
              "keeps the invariant; such a reconcile makes at most one network write; every finalising history with arbitrary restarts, clock advances and lost status writes "
-             "ends clean; a completed gateway restore writes nothing when repeated. The real manager is run through call sequences with explicit restarts and clock advances, "
-             "the real reconciler from generated (state, grace-state) pairs.",
+             "ends clean; a completed gateway restore writes nothing when repeated; a control-plane Finalize never reports success when one of its API calls failed (the fault "
+             "ranges over every call). The real manager is run through call sequences with explicit restarts and clock advances, the real reconciler from generated (state, "
+             "grace-state) pairs including half-configured networks and a failing gateway, the control planes with the n-th Get/Patch/List/Update/Create failing.",
         note="'Same final state as an undisturbed run' is shown as 'every history ends clean' (safety), not as confluence; faults inside the BatchRelease controller are C11's "
              "per-reconcile theorems; informer-cache staleness and creation expectations are not modelled.",
         design_ref="DESIGN.md section 9, C06"),
@@ -412,7 +422,9 @@ MANIFEST_TEXT = {
              "RemoveCanaryService only when the stable Service is un-pinned / the canary route withdrawn / the canary Service gone after that reconcile's writes; the three manager "
              "operations report completion only on a restored network; whichever exit (success, rollback, delete, disable) is declared finished only once the BatchRelease is gone "
              "and the in-progress marker removed. The reconcile models are compared with the real reconciler on generated states (every phase, every finalising cursor) on every "
-             "run and the same booleans are evaluated on the real result. This check found F29 (delete while the workload status is inconsistent left the stable Service pinned).",
+             "run and the same booleans are evaluated on the real result. This check found F29 and F32 (delete while the workload status is inconsistent left the stable Service "
+             "pinned). Workload side: a successful Finalize of the partition-style / canary-style Deployment control plane leaves no control marker, pause or finalizer behind "
+             "(Model/CtlPlane.v, ctlplane engine); network side: custom resources and Gateway routes are restored (theorems of C15 / C13, their clauses evaluated under C05 too).",
         note="The end-to-end statement (final quiescent cluster equals the pre-rollout cluster) over whole histories, blue-green fields (minReadySeconds, maxSurge, HPA) and the "
              "other workload kinds are not modelled: the claim is the per-reconcile core plus C11 (workload released) and C13-C15 (provider restores exactly).",
         design_ref="DESIGN.md section 9, C05"),
@@ -445,12 +457,14 @@ MANIFEST_TEXT = {
              "here: those clauses are tests (corpus + wall-clock bound of 3 s). Blocking of the worker by CPU-bound Go code inside the VM (e.g. string.rep) is outside the model.",
         design_ref="DESIGN.md section 9, C16"),
     "C17": dict(
-        text="Proof (two of four clauses): for every state of a partition-style Deployment and one sync of the advanced deployment controller, the new ReplicaSet never grows beyond "
-             "max(current size, partition limit) while old pods exist and is never scaled up so that the total exceeds replicas + maxSurge. The model of reconcileNew/OldReplicaSets "
-             "(including the slice-aliasing of the scale-down order that the check discovered) is compared with the real syncDeployment on every run, and all four clause booleans "
-             "(partition, reserve for old, surge, availability budget) are evaluated on the real result.",
-        note="Partial: 'old ReplicaSets never below the partition's reserve' and the availability budget are checked on the implementation but not yet proved for the model; convergence "
-             "at full partition is not proved; ReplicaSet creation (F19) and the scaling-event branch are outside the model.",
+        text="Proof (all four clauses): for every state of a partition-style Deployment and one sync of the advanced deployment controller, the new ReplicaSet never grows beyond "
+             "max(current size, partition limit) while old pods exist and is never scaled up so that the total exceeds replicas + maxSurge; the old ReplicaSets are never shrunk below "
+             "min(what they held, replicas - max(partition limit, new size)); the available pods kept by the sync number at least min(replicas - maxUnavailable, what was available). "
+             "The model of reconcileNew/OldReplicaSets includes the slice aliasing of the scale-down order that the check discovered (the loop may walk, and shrink, the NEW "
+             "ReplicaSet); the reserve and availability theorems hold in that case too. The model is compared with the real syncDeployment on every run (focused mode with several "
+             "unhealthy old ReplicaSets, stale status.availableReplicas) and all four clause booleans are evaluated on the real result.",
+        note="maxUnavailable is assumed non-negative (API validation). Convergence at full partition is not proved; ReplicaSet creation (F19) and the scaling-event branch are "
+             "outside the model.",
         design_ref="DESIGN.md section 9, C17"),
     "C18": dict(
         text="Proof: the Rollout controller drops its finalizer only when the Terminating condition already reports Completed, the BatchRelease controller only for a deleting "
@@ -467,8 +481,11 @@ MANIFEST_TEXT = {
              "the observed workload satisfies the readiness predicate for that batch, the batch cursor never advances beyond batchPartition, Completed is reported only by "
              "the reconcile whose Finalize released the workload, and a changed plan or scaled workload makes a Ready batch fall back. The Gallina reconcile (sync + execute + "
              "finalizer handling) is compared with the real Reconcile on generated states on every run; the same clause booleans are evaluated on the real result.",
-        note="Other workload kinds and the blue-green Finalize retry (candidate finding F6) are not yet in this model; 'only while' is per reconcile (the executor re-checks a "
-             "Ready batch on every reconcile, the lag between a workload change and the next reconcile is not modelled).",
+        note="Finalize of three more control planes is modelled separately (Model/CtlPlane.v: partition-style and canary-style Deployment, with any one API call failing; "
+             "Model/BGFinal.v: blue-green Deployment over histories of attempts): success only on a released -- and, with WaitResume, promoted -- workload. 'On every attempt "
+             "including retries' is FALSE of the blue-green Deployment code: known finding F6 (refutation theorem + replay on the real control plane on every run; the one-line "
+             "repair would break an existing spec that passes only because of the defect). StatefulSet / DaemonSet / blue-green CloneSet Finalize are not modelled. 'Only while' is "
+             "per reconcile.",
         design_ref="DESIGN.md section 9, C11"),
     "C12": dict(
         text="Proof: Properties/C12.v states, for every pod list, plan, replica count, batch and every label string, that batch-label writes of "
